@@ -149,7 +149,7 @@ def comp_queries():
                               (3, "ct", [SC + "aes_common.c", SC + "aes_ct.c"]), (4, "ct64", [SC + "aes_common.c", SC + "aes_ct64.c", "src/codec/dec32le.c"])):
             fn = {1: "br_aes_keysched (aes_big/aes_small)", 2: "br_aes_big_keysched_inv", 3: "br_aes_ct_keysched + br_aes_ct_skey_expand", 4: "br_aes_ct64_keysched + br_aes_ct64_skey_expand"}[ks]
             qs.append(Q("aes-keysched-%s-K%d" % (nm, klen), "C12_aescomp.c", units=units,
-                        defs=["-DWHAT=3", "-DKS=%d" % ks, "-DKLEN=%d" % klen], unwind=245, tier="quick" if klen != 24 else "thorough",
+                        defs=["-DWHAT=3", "-DKS=%d" % ks, "-DKLEN=%d" % klen], unwind=245, tier="quick",      # K24 too: 10-17 s each, and seeded change C12g lives only there
                         desc="%s == FIPS-197 5.2 KeyExpansion: the produced round keys (decoded from the implementation's documented format, all lanes alike) start with the key and satisfy w[i] = w[i-Nk] ^ g_i(w[i-1]) at every i, every %d-byte key" % (fn, klen)))
     qs.append(Q("aes-big-tables-dec", "C12_aescomp.c", units=[SC + "aes_common.c"], defs=["-DWHAT=4"], unwind=258,
                 desc="aes_big_dec.c: mul2/mul9/mulb/muld/mule == GF(2^8) multiplication by 2/9/11/13/14, iS == inverse of br_aes_S, iSsm0[x] == InvMixColumns column of iS[x]; all 256 x"))
